@@ -15,6 +15,7 @@ type Mutation struct {
 	Op   string // "write" | "remove"
 	Key  string
 	Data []byte
+	Step int // value of *StepRef when the mutation was issued
 }
 
 // ErrInjected is the error returned by an injected storage fault.
@@ -32,6 +33,7 @@ type MemStore struct {
 
 	Log     []Mutation
 	LogOn   bool
+	StepRef *int // optional logical step counter stamped into logged mutations
 	OpCount int // reads + writes + removes seen so far (for fault positions)
 	FailAt  int // 1-based operation index that fails once; 0 = none
 	FailHit bool
@@ -120,7 +122,7 @@ func (s *MemStore) Write(ctx context.Context, key string, body []byte, o *storag
 	}
 	s.data[key] = cp(body)
 	if s.LogOn {
-		s.Log = append(s.Log, Mutation{Op: "write", Key: key, Data: cp(body)})
+		s.Log = append(s.Log, Mutation{Op: "write", Key: key, Data: cp(body), Step: s.stepNow()})
 	}
 	return nil
 }
@@ -140,9 +142,16 @@ func (s *MemStore) Remove(ctx context.Context, key string) error {
 	}
 	delete(s.data, key)
 	if s.LogOn {
-		s.Log = append(s.Log, Mutation{Op: "remove", Key: key})
+		s.Log = append(s.Log, Mutation{Op: "remove", Key: key, Step: s.stepNow()})
 	}
 	return nil
+}
+
+func (s *MemStore) stepNow() int {
+	if s.StepRef != nil {
+		return *s.StepRef
+	}
+	return 0
 }
 
 // Search implements storage.Searcher.
